@@ -98,6 +98,7 @@ def gen_params(rng, kind=None):
                 c = rng.choice([0.5, 0.6, 0.75, 0.9, 0.3, round(rng.uniform(0.05, 0.95), 2)])
                 o = [x for x in blocs if x != b][0]
                 p["cohesion"][b] = {b: c, o: 1 - c}
+        p["shuffle_keys"] = rng.random() < 0.6
         if kind == "short_pl":
             p["L"] = rng.randint(1, len(names))
         if kind == "cumulative":
@@ -158,7 +159,13 @@ def build(vk, p, tmpdir=None):
     from votekit.pref_interval import PreferenceInterval
     kind = p["kind"]
     if kind in BLOC_KINDS:
-        pib = {b: {s: PreferenceInterval(dict(zip(p["slates"][s], p["supports"][b][s]))) for s in p["blocs"]} for b in p["blocs"]}
+        def interval_dict(b, s):
+            items = list(zip(p["slates"][s], p["supports"][b][s]))
+            if p.get("shuffle_keys"):
+                # the key order of the interval dict need not be the order of the slate list
+                random.Random(f"{p['seed']}/{b}/{s}").shuffle(items)
+            return dict(items)
+        pib = {b: {s: PreferenceInterval(interval_dict(b, s)) for s in p["blocs"]} for b in p["blocs"]}
         kw = dict(slate_to_candidates={b: list(p["slates"][b]) for b in p["blocs"]}, pref_intervals_by_bloc=pib,
                   bloc_voter_prop=dict(p["props"]), cohesion_parameters={b: dict(p["cohesion"][b]) for b in p["blocs"]})
         if kind == "pl":
